@@ -53,11 +53,19 @@ SPEC = {
                 "checkpoints monotone and <= head, and the concatenation of the change lists delivered to each client (since its last snapshot) "
                 "equals exactly the log rows of the other actors in that range, in order (no loss, duplicate or echo). parallel part (race build): "
                 "goroutine clients hammer one document; same invariants on the final log and deliveries. non-trivial = >=1 pair of concurrent "
-                "changes by different actors and >2 change pulls (seq) / >=2 requests overlapped in time (par); distinct = distinct program hash",
+                "changes by different actors and >2 change pulls (seq) / >=2 requests overlapped in time (par); distinct = distinct program hash. "
+                "part inflight (race build): generated episodes in which ONE client has two requests on the document in flight together (the original "
+                "and its repetition with the identical pack or one more change: PushPull/push-only, then PushPull/push-only/Detach) under a schedule "
+                "the harness owns - the first is parked at a drawn point inside the server (before its 2nd/3rd lock acquisition via hook H3, or "
+                "before/after CreateChangeInfos, UpdateClientInfoAfterPushPull, the pull range read via the DB decorator), the second is started "
+                "and observed to wait on a lock (or finish), optionally the other client pushes in between, then the first is released; oracle: both "
+                "return, no stored change twice (actor, lamport), gap-free log, the observer's counter equals the number of increases (exactly once), "
+                "replicas converge; non-trivial = the first request was parked and the second was seen waiting on a lock",
         "assumptions": ["in-memory database: memdb serialises write transactions, so the doc-push lock is redundant for seq assignment on this backend (MongoDB-only races are out of reach)"],
         "parts": [
             {"name": "seq", "test": "TestC04", "checks": [1200, 5000], "shards": [4, 14], "timeout": [900, 7200]},
             {"name": "par", "test": "TestC04Par", "pkg": "c16", "race": True, "checks": [40, 300], "shards": [4, 14], "timeout": [900, 7200]},
+            {"name": "inflight", "test": "TestC04Inflight", "pkg": "c16", "race": True, "checks": [60, 300], "shards": [4, 8], "timeout": [900, 7200]},
         ],
     },
     "C06": {
@@ -82,11 +90,14 @@ SPEC = {
                 "them up to a cap per program, a seeded sample above it); the program is re-run once per point with that single fault, the "
                 "client retries the identical pack, and the run must: let the retry succeed, keep every (actor, clientSeq) at most once in a "
                 "gap-free log, converge, and (immediate retry) end with the same counter value as the fault-free twin and, when neither run contains concurrent changes, in the same content. non-trivial = the fault fired while the pack "
-                "carried >=1 change; distinct = distinct (program, fault point)",
+                "carried >=1 change; distinct = distinct (program, fault point). part inflight (c16, race build): the repetition is sent while the "
+                "original is STILL IN FLIGHT (client-side timeout / reconnect / background sync overlapping a detach) under an owned schedule - see C04 "
+                "part inflight for the generator; oracle: both return (or a sequential retry succeeds), every carried edit exactly once (log, counter), convergence",
         "assumptions": ["in-memory database backend", "faults are injected at the Database interface (decorator), one per run",
                         "fault points inside the window of known finding F12 are excluded by construction and counted"],
         "parts": [
             {"name": "faults", "test": "TestC05", "checks": [60, 200], "shards": [8, 14], "timeout": [900, 7200]},
+            {"name": "inflight", "test": "TestC05Inflight", "pkg": "c16", "race": True, "checks": [60, 300], "shards": [4, 8], "timeout": [900, 7200]},
         ],
     },
     "C12": {
